@@ -98,7 +98,9 @@ def _info_bounded(prop):
             "'1A' with 1 atom} x 4 residue numberings (consecutive; constant number = same number/different names and legitimate merges; "
             "number changing every two residues; digit-leading: residue 1 named '1A' next to residue 11 named 'A') x with/without "
             "velocities, files written by this module's own formatter. On each file: iteration equals the record list and splits "
-            "exactly at (number,name) changes; len/n_atoms/box/title; every index in [-len,len), 4 out-of-range indices and 18 slices "
+            "exactly at (number,name) changes; len/n_atoms/box/title (the same contracts also on every sequence of length <= 3 (4) "
+            "with titles containing multi-byte UTF-8 characters and/or CRLF line ends, where character counts differ from byte offsets; "
+            "the seeded larger files alternate these variants); every index in [-len,len), 4 out-of-range indices and 18 slices "
             "from the state after construction, from every forced cursor position in [0,natoms] and after a partial iteration stopped "
             "after every residue (the suspended generator is then resumed and must still yield the remaining residues); all ordered "
             "pairs of accesses from a sub-family. Random public-API histories of length 200 on seeded larger files; the shipped "
@@ -123,11 +125,28 @@ def fmt_atom(rec):
     return s
 
 
-def fmt_file(title, records, boxvals):
+def fmt_file(title, records, boxvals, eol="\n"):
     lines = [title, "%5d" % len(records)]
     lines += [fmt_atom(r) for r in records]
     lines.append(" ".join("%9.5f" % v for v in boxvals))
-    return "\n".join(lines) + "\n"
+    return eol.join(lines) + eol
+
+
+# titles with multi-byte UTF-8 characters and Windows line ends: character counts differ from byte offsets
+MB_TITLES = ("verif C12 \u00b5m 25\u00b0C \u00e9\u00e0\u00fc", "\u6c34\u5206\u5b50 C12 \u00c5ngstr\u00f6m \u2014 t= 0.0")
+ENC_VARIANTS = (("mbtitle0-lf", MB_TITLES[0], "\n"), ("ascii-crlf", None, "\r\n"), ("mbtitle1-crlf", MB_TITLES[1], "\r\n"))
+
+
+def write_text(path, text):
+    with open(path, "w", encoding="utf-8", newline="") as f:     # bytes exactly as generated (CRLF kept)
+        f.write(text)
+
+
+def utf8_default():
+    """The code under check opens files with the default encoding; multi-byte titles only make sense under UTF-8."""
+    import locale
+    import sys
+    return bool(sys.flags.utf8_mode) or locale.getpreferredencoding(False).lower().replace("-", "") == "utf8"
 
 
 def mk_record(i, resid, resname, name, vel):
@@ -149,6 +168,7 @@ def parse_text(text):
     lines = text.split("\n")
     if lines and lines[-1] == "":
         lines = lines[:-1]
+    lines = [l[:-1] if l.endswith("\r") else l for l in lines]      # CRLF line ends
     title = lines[0]
     nat = int(lines[1])
     recs = []
@@ -189,16 +209,16 @@ def numbering(scheme, seq):
 BOXES = ([3.0, 4.0, 5.0], [3.0, 4.0, 5.0, 0.0, 0.0, 1.0, 0.0, 0.5, 1.5])
 
 
-def small_file(seq, scheme, vel, variant=0):
+def small_file(seq, scheme, vel, variant=0, title=None, eol="\n"):
     nums = numbering(scheme, seq)
     recs = []
     for kind, num in zip(seq, nums):
         resname, atoms = KINDS[kind]
         for an in atoms:
             recs.append(mk_record(len(recs), num, resname, an, vel))
-    title = "verif C12  %s %s t= 0.0" % (scheme, ",".join(seq))
+    title = title or "verif C12  %s %s t= 0.0" % (scheme, ",".join(seq))
     box = BOXES[variant % 2]
-    return fmt_file(title, recs, box), recs, title, box
+    return fmt_file(title, recs, box, eol), recs, title, box
 
 
 def big_file(seed, idx, nres, vel):
@@ -232,8 +252,12 @@ def big_file(seed, idx, nres, vel):
         for j in range(size):
             recs.append(mk_record(len(recs), num, nm, "%s%d" % (letter, j + 1), vel))
     title = "verif C12 generated seed=%d idx=%d nres=%d" % (seed, idx, nres)
+    # idx % 4: 0 ascii/LF, 1 multi-byte title/LF, 2 ascii/CRLF, 3 multi-byte title/CRLF
+    if idx % 2 == 1 and utf8_default():
+        title = MB_TITLES[(idx // 2) % 2] + " " + title
+    eol = "\r\n" if idx % 4 >= 2 else "\n"
     box = BOXES[idx % 2]
-    return fmt_file(title, recs, box), recs, title, box
+    return fmt_file(title, recs, box, eol), recs, title, box
 
 
 # ---------------------------------------------------------------------------
@@ -577,8 +601,7 @@ class FileCtx:
         self.gen, self.shipped = gen, shipped
         if shipped is None:
             self.path = os.path.join(tmpdir, "f.gro")
-            with open(self.path, "w") as f:
-                f.write(text)
+            write_text(self.path, text)
         else:
             self.path = shipped_path()
 
@@ -881,9 +904,13 @@ def run_history(acc, fc, rng, length=200):
 # tasks
 
 
-def task_small(tier, seed, scheme, vel, firsts, L):
+def task_small(tier, seed, scheme, vel, firsts, L, enc=False):
     t0 = time.time()
     fam = "seq<=%d,numbering=%s,vel=%d,first=%s" % (L, scheme, int(vel), "|".join(firsts))
+    variants = [("", None, "\n")]
+    if enc:
+        variants = [v for v in ENC_VARIANTS if v[1] is None or utf8_default()]
+        fam = "seq<=%d,numbering=%s,vel=%d,%s" % (L, scheme, int(vel), "+".join(v[0] for v in variants))
     acc = Acc(fam)
     tmp = tempfile.mkdtemp(prefix="c12_")
     try:
@@ -892,13 +919,15 @@ def task_small(tier, seed, scheme, vel, firsts, L):
             for seq in itertools.product(KIND_NAMES, repeat=l):
                 if seq[0] not in firsts:
                     continue
-                text, recs, title, box = small_file(seq, scheme, vel, variant=count)
-                count += 1
-                pt = parse_text(text)
-                if pt[2] != recs or pt[0] != title or pt[1] != len(recs):
-                    raise RuntimeError("harness: own formatter and own parser disagree on %r" % (seq,))
-                fc = FileCtx(tmp, text, recs, title, box, "%s:%s:vel%d" % (scheme, ",".join(seq), int(vel)))
-                check_file(acc, fc)
+                for vname, vtitle, eol in variants:
+                    text, recs, title, box = small_file(seq, scheme, vel, variant=count, title=vtitle, eol=eol)
+                    count += 1
+                    pt = parse_text(text)
+                    if pt[2] != recs or pt[0] != title or pt[1] != len(recs):
+                        raise RuntimeError("harness: own formatter and own parser disagree on %r" % (seq,))
+                    fc = FileCtx(tmp, text, recs, title, box,
+                                 "%s:%s:vel%d%s" % (scheme, ",".join(seq), int(vel), ":" + vname if vname else ""))
+                    check_file(acc, fc)
         return acc.obligations(t0)
     finally:
         shutil.rmtree(tmp, ignore_errors=True)
@@ -957,7 +986,7 @@ def task_history(tier, seed, idxs, sizes, fam):
 def task_shipped(tier, seed):
     t0 = time.time()
     acc = Acc("shipped=%s" % SHIPPED)
-    with open(shipped_path()) as f:
+    with open(shipped_path(), encoding="utf-8", newline="") as f:
         text = f.read()
     title, nat, recs, box = parse_text(text)
     if nat != len(recs):
@@ -1099,6 +1128,11 @@ def _tasks_bounded(prop, tier, seed):
             for firsts in (("A2", "A1"), ("B2", "1A")):
                 t.append(("small/%s/vel%d/first=%s" % (scheme, int(vel), "+".join(firsts)), task_small,
                           (tier, seed, scheme, vel, firsts, L), lim))
+    # multi-byte titles / CRLF line ends (byte offsets differ from character counts): every sequence of length <= 3 (4)
+    for scheme in ("consecutive", "digit"):
+        for vel in (False, True):
+            t.append(("small-encoding/%s/vel%d" % (scheme, int(vel)), task_small,
+                      (tier, seed, scheme, vel, KIND_NAMES, L - 1, True), lim))
     t.append(("shipped/" + SHIPPED, task_shipped, (tier, seed), 300.0))
     if tier == "quick":
         t.append(("history/medium-files", task_history, (tier, seed, (0, 1, 2, 3), (30, 80), "generated 4 files of 30-80 residues, sizes 1..12"), 300.0))
@@ -1120,7 +1154,7 @@ def _replay_bounded(prop, cex):
     tmp = tempfile.mkdtemp(prefix="c12_replay_")
     try:
         if cex.get("shipped"):
-            with open(shipped_path()) as f:
+            with open(shipped_path(), encoding="utf-8", newline="") as f:
                 text = f.read()
             path = shipped_path()
         else:
@@ -1130,8 +1164,7 @@ def _replay_bounded(prop, cex):
             else:
                 text = cex["text"]
             path = os.path.join(tmp, "f.gro")
-            with open(path, "w") as f:
-                f.write(text)
+            write_text(path, text)
         title, nat, recs, box = parse_text(text)      # independent parse = oracle
         s = Session(path, recs, title, box)
         try:
